@@ -47,6 +47,8 @@ def lattice_defn(points):
         ctxs.append({"crit": [cmp("N", ">=", 2), cmp("SEQF", "!=", 0)], "cal": spl})
     it["cal"] = {"default": default, "context": ctxs}
     xdoc.add_param(d, "I16", it)
+    import copy
+    xdoc.add_param(d, "I16B", copy.deepcopy(it))          # a second channel with an equal type (shared instances on the "shared" route)
     fenc = g("FloatDataEncoding.encoding", "IEEE754")
     xdoc.add_param(d, "FL", xdoc.ptype_num("float", xdoc.numeric_enc("flt", 32, order=g("NumericDataEncoding.byteOrder", "msb"),
                                                                       fmt="ieee" if fenc == "IEEE754" else "mil1750a")))
@@ -77,7 +79,7 @@ def lattice_defn(points):
     xdoc.add_param(d, "EN", en)
     xdoc.add_container(d, "ROOT", [("p", nm) for nm, _ in HDR], abstract=True, short=desc_s, long=desc_l)
     op = g("Comparison.comparisonOperator", "==")
-    xdoc.add_container(d, "MAIN", [("p", "N"), ("p", "I16"), ("p", "FL"), ("p", "BLOB"), ("p", "TXT"), ("p", "TM"), ("p", "EN")], base="ROOT",
+    xdoc.add_container(d, "MAIN", [("p", "N"), ("p", "I16"), ("p", "I16B"), ("p", "FL"), ("p", "BLOB"), ("p", "TXT"), ("p", "TM"), ("p", "EN")], base="ROOT",
                        crit_list=[cmp("APID", op, 5, g("Comparison.useCalibratedValue", "true") == "true")],
                        abstract=g("SequenceContainer.abstract", "false") == "true")
     xdoc.add_container(d, "SUB", [("p", "TXT2")], base="MAIN", crit_list=[cmp("EN", "==", 1, False), cmp("N", "<", 9)])
@@ -97,11 +99,18 @@ def lattice_defn(points):
     return d
 
 
+_RT = [0]
+
+
 def roundtrip(dobj):
     from lxml import etree
     from space_packet_parser.xtce.definitions import XtcePacketDefinition
     dobj.date = DATE
-    xml = etree.tostring(dobj.to_xml_tree())
+    _RT[0] += 1
+    tree = dobj.to_xml_tree()
+    if _RT[0] % 2:
+        dobj.to_xml_tree()          # every second case: another tree is written before the first one is serialised
+    xml = etree.tostring(tree)
     return XtcePacketDefinition.from_xtce(io.BytesIO(xml), xtce_ns_prefix=dobj.xtce_ns_prefix, root_container_name=dobj.root_container_name), xml
 
 
@@ -183,9 +192,9 @@ def run(ctx):
         for _ in range(6):
             n = rng.choice([0, 1, 2, 3, 5])
             body = bytes([n]) + bytes(rng.getrandbits(8) for _ in range(40))
-            body = body[:1 + 2 + 4 + max(0, 8 * n + 0) // 8 + 6 + 1 + 1 + rng.choice([0, 0, 2])]
+            body = body[:1 + 2 + 2 + 4 + max(0, 8 * n + 0) // 8 + 6 + 1 + 1 + rng.choice([0, 0, 2])]
             pk.append(list(defs.mk_packet(body, apid=rng.choice([5, 5, 5, 4, 6]), seq=rng.randrange(16384))))
-        for route in (("obj",), ("xml", "prefix", False, False), ("xml", "default", True, False)):
+        for route in (("obj",), ("obj", "shared"), ("xml", "prefix", False, False), ("xml", "default", True, False)):
             try:
                 x0 = xdoc.make(d, route)
             except Exception as e:  # noqa: BLE001
@@ -197,7 +206,7 @@ def run(ctx):
     # ---- rich random definitions
     for i in range(40 if q else 800):
         g = gendefs.DefGen(rng).build()
-        route = [("obj",), ("xml", "prefix", False, False), ("xml", "none", True, True), ("xml", "default", False, False)][i % 4]
+        route = [("obj",), ("xml", "prefix", False, False), ("xml", "none", True, True), ("xml", "default", False, False), ("obj", "shared")][i % 5]
         try:
             x0 = xdoc.make(g.d, route)
         except Exception as e:  # noqa: BLE001
